@@ -115,7 +115,8 @@ class Session:
         self.task = new[0]
         self.proxy = world.srv.clients[self.task]
         if pop3:
-            self.feed_frame(b"POP3")
+            # what the POP3 front-end sends first: the marker in a frame whose header carries a `+` (an IMAP client's line can not)
+            self.reader.feed_data(b"{4+}\nPOP3")
 
     # -- output ------------------------------------------------------------------------
     def on_output(self):
